@@ -1,0 +1,35 @@
+//go:build verif
+
+package build
+
+import (
+	"context"
+
+	v1 "github.com/google/go-containerregistry/pkg/v1"
+
+	"chainguard.dev/apko/pkg/apk/apk"
+	apkfs "chainguard.dev/apko/pkg/apk/fs"
+)
+
+// VerifC10GroupByOriginAndSize runs groupByOriginAndSize and returns the package
+// list of every group (verification hook, C10).
+func VerifC10GroupByOriginAndSize(pkgs []*apk.Package, budget int) ([][]*apk.Package, error) {
+	groups, err := groupByOriginAndSize(pkgs, budget)
+	if err != nil {
+		return nil, err
+	}
+	out := make([][]*apk.Package, 0, len(groups))
+	for _, g := range groups {
+		out = append(out, g.pkgs)
+	}
+	return out, nil
+}
+
+// VerifC10SplitLayers runs splitLayers on groups given as package lists.
+func VerifC10SplitLayers(ctx context.Context, fsys apkfs.FullFS, groups [][]*apk.Package, tmpdir string) ([]v1.Layer, error) {
+	gs := make([]*group, 0, len(groups))
+	for _, pkgs := range groups {
+		gs = append(gs, &group{pkgs: pkgs})
+	}
+	return splitLayers(ctx, fsys, gs, tmpdir)
+}
